@@ -147,9 +147,14 @@ def iparamPosInt : Arg → Except PyExc Arg
   | .none => .ok .none
   | _ => .error .typeError
 
+def isStrArg : Arg → Bool
+  | .str _ => true
+  | _ => false
+
+/-- `_iparam_propertylist`: None, a list / tuple of strings, or one string -/
 def iparamPropertyList : Arg → Except PyExc Arg
   | .none => .ok .none
-  | .list l => .ok (.list l)
+  | .list l => if l.all isStrArg then .ok (.list l) else .error .typeError
   | .str s => .ok (.list [.str s])
   | _ => .error .typeError
 
@@ -240,6 +245,13 @@ def runNsCheck (dn : Str) (s : St) : Req.Check → Except PyExc St
         | some n => .ok { s with ns := .str n }
         | none => .ok s
     | _ => .ok s
+  | .nsFromInstancePathIfNone p =>
+    match s.ns, s.get p with
+    | .none, .inst (.mk _ (some path) _ _) =>
+      match pathNs path with
+      | some n => .ok { s with ns := .str n }
+      | none => .ok s
+    | _, _ => .ok s
   | .nsFromContext p =>
     match s.get p with
     | .list l => .ok { s with ns := listItem l 1 }
@@ -286,6 +298,29 @@ def argXml (C : Codec) : Arg → Except PyExc Xml
   | .cls c => checked (encCls C c)
   | .qdecl q => checked (encQualDecl C q)
   | .other => .error .typeError
+
+/-! ### `tocimxml(value)` / `tocimxmlstr(value)` of a CIM data value that is not inside an object -/
+
+/-- one item of a list value: `VALUE(atomic_to_cim_xml(v))`; CIM objects are not atomic (TypeError) -/
+def valueItemXml (C : Codec) : Atom → Except PyExc Xml
+  | .null => .ok nullItem
+  | .ref _ | .einst _ | .ecls _ => .error .typeError
+  | a => checked (valueElem (atomText C a))
+
+def valueItemsXml (C : Codec) : List Atom → Except PyExc (List Xml)
+  | [] => .ok []
+  | a :: as => do let x ← valueItemXml C a; let xs ← valueItemsXml C as; .ok (x :: xs)
+
+/-- mirrors pywbem/_cim_obj.py: tocimxml (module-level function) for a CIM data value, a list of them, or a CIM
+    object name / instance / class given as the value (`value.tocimxml()`) -/
+def tocimxmlValue (C : Codec) : Val → Except PyExc Xml
+  | .null => .error .valueError
+  | .array l => do let xs ← valueItemsXml C l; .ok (E "VALUE.ARRAY" [] xs)
+  | .scalar .null => .error .valueError
+  | .scalar (.ref p) => checked (encPath C p)
+  | .scalar (.einst i) => checked (encInst C i)
+  | .scalar (.ecls c) => checked (encCls C c)
+  | .scalar a => checked (valueElem (atomText C a))
 
 /-! ### envelope -/
 
@@ -509,44 +544,54 @@ def hostSlash : Option Str → Str
   | some _ => ['/']
   | none => []
 
-mutual
-/-- one `key=value` of `to_wbem_uri(format='cimobject')`; `none` = TypeError -/
-def keyUri (C : KeyCodec) (fuel : Nat) : Str × Atom → Option Str
-  | (k, v) =>
-    let q (s : Str) : Option Str := some (k ++ '=' :: '"' :: uriEscape s ++ ['"'])
-    match v with
-    | .str s | .char16 s => q s
-    | .bool b => some (k ++ '=' :: boolText b)
-    | .real w bits => some (k ++ '=' :: C.reprReal (if w then 1 else 0) bits)
-    | .pyfloat bits => some (k ++ '=' :: C.reprReal 2 bits)
-    | .int _ i | .pyint i => some (k ++ '=' :: intToStr i)
-    | .dt s => some (k ++ '=' :: '"' :: s ++ ['"'])
-    | .ref p =>
-      match fuel with
-      | 0 => none
-      | f + 1 => match pathUri C f p with
-        | some u => q u
-        | none => none
-    | _ => none
-def keysUri (C : KeyCodec) (fuel : Nat) : List (Str × Atom) → Option (List Str)
+/-- `[f(x) for x in l]` where `f` may raise -/
+def mapOpt {α β : Type} (f : α → Option β) : List α → Option (List β)
   | [] => some []
-  | k :: ks => match keyUri C fuel k, keysUri C fuel ks with
-    | some a, some b => some (a :: b)
+  | x :: xs => match f x, mapOpt f xs with
+    | some y, some ys => some (y :: ys)
     | _, _ => none
-/-- `to_wbem_uri(format='cimobject')`: the host is not written (but a path that has one starts with `/`);
-    `ns:Class.k="v",…` -/
-def pathUri (C : KeyCodec) (fuel : Nat) : Path → Option Str
-  | .cls c host ns => some (hostSlash host ++ (match ns with | some n => n | none => []) ++ ':' :: c)
+
+/-- a quoted string of `to_wbem_uri` -/
+def uriQuote (s : Str) : Str := '"' :: uriEscape s ++ ['"']
+
+/-- the value text of one keybinding in `to_wbem_uri(format='cimobject')`; `rec` renders a referenced instance path
+    (`value.to_wbem_uri(format=format)`); `none` = TypeError -/
+def keyValText (C : KeyCodec) (rec : Path → Option Str) : Atom → Option Str
+  | .str s | .char16 s => some (uriQuote s)
+  | .bool b => some (boolText b)
+  | .real w bits => some (C.reprReal (if w then 1 else 0) bits)
+  | .pyfloat bits => some (C.reprReal 2 bits)
+  | .int _ i | .pyint i => some (intToStr i)
+  | .dt s => some ('"' :: s ++ ['"'])
+  | .ref p => (rec p).map uriQuote
+  | _ => none
+
+/-- one `key=value` -/
+def keyTok (C : KeyCodec) (rec : Path → Option Str) (kv : Str × Atom) : Option Str :=
+  (keyValText C rec kv.2).map (fun t => kv.1 ++ '=' :: t)
+
+/-- `case_sorted(self.keybindings.keys())`: the named keybindings in code point order of their names -/
+def sortedKeys (keys : List Key) : Option (List (Str × Atom)) := (mapOpt keyNamed keys).map (fun named => named.foldr insertKey [])
+
+def uriHead (c : Str) (host ns : Option Str) : Str := hostSlash host ++ (match ns with | some n => n | none => []) ++ ':' :: c
+
+/-- `to_wbem_uri(format='cimobject')` of one path, references rendered by `rec`: the host is not written (but a path
+    that has one starts with `/`); `ns:Class.k="v",…` -/
+def renderPath (C : KeyCodec) (rec : Path → Option Str) : Path → Option Str
+  | .cls c host ns => some (uriHead c host ns)
   | .inst c host ns keys =>
-    match keys.mapM keyNamed with
+    match sortedKeys keys with
     | none => none
-    | some named =>
-      match keysUri C fuel (named.foldr insertKey []) with
+    | some sorted =>
+      match mapOpt (keyTok C rec) sorted with
       | none => none
-      | some parts =>
-        let head := hostSlash host ++ (match ns with | some n => n | none => []) ++ ':' :: c
-        some (if parts.isEmpty then head else head ++ '.' :: joinComma parts)
-end
+      | some parts => some (if parts.isEmpty then uriHead c host ns else uriHead c host ns ++ '.' :: joinComma parts)
+
+/-- mirrors pywbem/_cim_obj.py: CIMInstanceName.to_wbem_uri / CIMClassName.to_wbem_uri with format='cimobject';
+    `fuel` bounds the nesting of reference keybindings (callers pass `pathDepth`) -/
+def pathUri (C : KeyCodec) : Nat → Path → Option Str
+  | 0, p => renderPath C (fun _ => none) p
+  | f + 1, p => renderPath C (pathUri C f) p
 
 def pathDepthKeys : List Key → Nat
   | [] => 0
@@ -716,6 +761,18 @@ def bodyClassName (x : Xml) : Option Str :=
       | none => Xml.attr as "CLASSNAME".toList
     else none
   | _ => none
+
+/-- the LOCALINSTANCEPATH / LOCALCLASSPATH element of a METHODCALL request -/
+def bodyTarget (x : Xml) : Option Xml :=
+  match bodyCall x with
+  | some (.elem n _ (t :: _)) => if n = "METHODCALL".toList then some t else none
+  | _ => none
+
+/-- undo `uriEscape`: `\\c` stands for `c` -/
+def uriUnescape : Str → Str
+  | [] => []
+  | [c] => [c]
+  | c :: d :: rest => if c = '\\' then d :: uriUnescape rest else c :: uriUnescape (d :: rest)
 
 def header (h : Headers) (k : String) : Option Str := Xml.attr h k.toList
 
